@@ -438,6 +438,65 @@ fn fop() -> impl Strategy<Value = FOp> {
 pub fn run(c: &Ctx) {
     c.set_rule("histories of 1..30 file operations (write_all, append_all, write_lines, append_line, append_lines, write()/append() handles with chunked writes and flushes, copy file->file and into a directory, move_p file->file and into a directory, copies and moves from a missing source (whatever they answer, no file's content may change), remove+recreate, writing calls addressed to a symlink that points at one of the files (whatever they answer, no file's content may change); write()/append() handles that stay open across later steps on other files and are flushed/dropped at arbitrary later points) over six file paths in two directories; data: empty, ASCII with newlines, multi-byte UTF-8, invalid UTF-8 / CR / NUL, random bytes, 1-16 KiB and 63-67 KiB blocks, 1-65 KiB of valid text made of 1-4 byte characters at every alignment; lines incl. empty ones and ones carrying a terminator. After EVERY step every path is read back (read handle, read_all, read_lines; on Stdfs also std::fs::read) and compared with a byte-vector model: write replaces, append extends, helpers add one newline per line, untouched files unchanged, copies/moves do not alias; read_lines(write_lines(ls))==ls for proper lines. Both backends. Plus, on Stdfs, every program of length 5/6 over several append writers of one file (two append handles with write+flush, append_all, append_line): old content plus every chunk in call order after every step. Non-trivial = history with >=2 writes/appends to one file and a multi-byte or invalid-UTF-8 payload; distinct by history.");
     c.assume("append_line(\"\") and write_lines/append_lines whose joined text is empty: no-op or newline form both admitted (deliberately skipped by both backends; outside the statement's round-trip clause)");
+    // a copy duplicates content whatever the clocks say: same length, other bytes, destination (or source) stamped
+    // ten seconds / a day into the future or the past
+    {
+        let d = crate::sandbox::root().join("c06-mtime");
+        let _ = std::fs::create_dir_all(&d);
+        let v = Vfs::stdfs();
+        let now = std::time::SystemTime::now();
+        for (k, (src_shift, dst_shift)) in [(0i64, 10i64), (0, 86_400), (10, 0), (-86_400, 0), (0, -10), (3, 3)].iter().enumerate() {
+            let (src, dst) = (d.join(format!("s{}", k)), d.join(format!("t{}", k)));
+            let _ = std::fs::write(&src, b"source bytes");
+            let _ = std::fs::write(&dst, b"older bytes!");
+            let stamp = |p: &std::path::Path, shift: i64| {
+                let t = if shift >= 0 { now + std::time::Duration::from_secs(shift as u64) } else { now - std::time::Duration::from_secs((-shift) as u64) };
+                let _ = std::fs::OpenOptions::new().write(true).open(p).and_then(|f| f.set_modified(t));
+            };
+            stamp(&src, *src_shift);
+            stamp(&dst, *dst_shift);
+            c.eval(1);
+            c.nontrivial(fp(&("mtime", k)));
+            c.class("files:copy-vs-timestamps");
+            let r = v.copy(&src, &dst);
+            let got = std::fs::read(&dst).unwrap_or_default();
+            let res = if r.is_ok() && got != b"source bytes" {
+                Err(Failure::new("copy-file|wrong-content|timestamps|stdfs", format!("copy(src stamped {:+}s, dst stamped {:+}s) returned Ok but dst holds {:?}", src_shift, dst_shift, String::from_utf8_lossy(&got))))
+            } else {
+                Ok(())
+            };
+            c.judge("files", &json!({"stdfs": true, "ops": []}), res);
+        }
+        let _ = std::fs::remove_dir_all(&d);
+    }
+    // files whose reported size is not their length (procfs and sysfs say 0 or 4096): the readers return the content,
+    // as std::fs does, not what the size promises
+    {
+        let v = Vfs::stdfs();
+        for p in ["/proc/version", "/proc/filesystems", "/proc/cmdline", "/proc/sys/kernel/ostype", "/sys/kernel/mm/transparent_hugepage/enabled", "/proc/self/comm"] {
+            let want = match std::fs::read_to_string(p) {
+                Ok(w) if !w.is_empty() => w,
+                _ => continue,
+            };
+            c.eval(1);
+            c.nontrivial(fp(&("pseudo", p)));
+            c.class("files:size-is-not-length");
+            let all = v.read_all(p).map_err(|e| e.to_string());
+            let lines = v.read_lines(p).map_err(|e| e.to_string());
+            let mut buf = vec![];
+            let rd = v.read(p).map_err(|e| e.to_string()).and_then(|mut r| std::io::Read::read_to_end(&mut r, &mut buf).map_err(|e| e.to_string()));
+            let res = if all.as_ref() != Ok(&want) {
+                Err(Failure::new("read_all|differs-from-std|size-is-not-length|stdfs", format!("read_all({:?}) = {:?}, std::fs::read_to_string = {:?}", p, all, want)))
+            } else if lines.as_ref().map(|l| l.len()).ok() != Some(want.lines().count()) {
+                Err(Failure::new("read_lines|differs-from-std|size-is-not-length|stdfs", format!("read_lines({:?}) = {:?}, content {:?}", p, lines, want)))
+            } else if rd.is_err() || buf != want.as_bytes() {
+                Err(Failure::new("read|differs-from-std|size-is-not-length|stdfs", format!("read({:?}) gave {:?} / {} bytes, content has {}", p, rd, buf.len(), want.len())))
+            } else {
+                Ok(())
+            };
+            c.judge("files", &json!({"stdfs": true, "ops": []}), res);
+        }
+    }
     // "an append adds at the end and never alters the existing prefix" with several writers on one Stdfs file
     crate::props::c07::run_append_interleave(c, c.tier.pick(5, 6));
     for (stdfs, n, salt) in [(false, c.tier.pick(30_000, 300_000), 600u64), (true, c.tier.pick(2_000, 20_000), 601)] {
